@@ -51,10 +51,14 @@ def _case(draw, tier):
         "limit_input": draw(st.booleans()),
         "step_input": draw(st.booleans()),
         "acc": prob(draw, 0.3),
+        "nullable": prob(draw, 0.25),   # a second carried value that is None in some iterations (None is a value, not 'not produced yet')
+        "two_signals": draw(st.booleans()),  # signal form: the gate waits for an early signal AND the end-of-iteration signal
         "nested": prob(draw, 0.2),
         "limit_off": draw(st.integers(0, 3)),
         "entry": 0,
     }
+    if form in ("selfsignal", "chat") or L["acc"]:
+        L["nullable"] = False
     if form == "selfsignal":
         L.update({"k": 2, "acc": False, "nested": False, "limit_input": L["limit_input"]})
     if form == "waitlast":
@@ -197,6 +201,10 @@ def check_case(case, ev):
             raise Violation("c04.too_many_steps", f"max_iterations={m} but {len(steps)} supersteps observed; loop={J(L)}")
         if oa.status != "failed" or not isinstance(oa.error, InfiniteLoopError):
             raise Violation("c04.cap_below_async", f"async max_iterations={m} < S={S} gave {oa.brief()}; loop={J(L)}")
+        # "... together with the values computed so far": after the same m supersteps both runners have computed the same values
+        if oa.values != o.values:
+            raise Violation("c04.cap_partial_values_differ", f"max_iterations={m}: FAILED/InfiniteLoopError carries {J(oa.values)} on the async runner and {J(o.values)} on the sync runner; loop={J(L)}",
+                            empty=not oa.values)
     if capped:
         labels.add("capped_run")
     nontrivial = iters >= 2 or iters in (0, 1) and True or capped
